@@ -30,7 +30,10 @@ def member(data, level=6, fname=None, fextra=None, fcomment=None, fhcrc=False, m
 
 
 def compress(data, params):
-    """params: {'level', 'fname', 'fextra', 'fcomment', 'fhcrc', 'mtime', 'splits': [fractions/1000]}"""
+    """params: {'level', 'fname', 'fextra', 'fcomment', 'fhcrc', 'mtime', 'splits': [fractions/1000],
+                'align': delta} - with 'align' the first member (the whole stream if there is one member) is padded,
+                through the length of its FCOMMENT field, so that it ends delta bytes past a multiple of 512
+                (the size of the tool's input buffer)."""
     splits = params.get('splits') or []
     cuts = sorted(set(min(len(data), (len(data) * s) // 1000) for s in splits))
     parts = []
@@ -41,9 +44,21 @@ def compress(data, params):
     parts.append(data[prev:])
     out = b''
     for i, p in enumerate(parts):
-        out += member(p, level=params.get('level', 6), fname=params.get('fname') if i == 0 else None,
-                      fextra=params.get('fextra') if i == 0 else None, fcomment=params.get('fcomment') if i == 0 else None,
-                      fhcrc=params.get('fhcrc', False), mtime=params.get('mtime', 0), strategy=params.get('strategy', 0))
+        kw = dict(level=params.get('level', 6), fname=params.get('fname') if i == 0 else None,
+                  fextra=params.get('fextra') if i == 0 else None, fcomment=params.get('fcomment') if i == 0 else None,
+                  fhcrc=params.get('fhcrc', False), mtime=params.get('mtime', 0), strategy=params.get('strategy', 0))
+        m = member(p, **kw)
+        if i == 0 and params.get('align') is not None:
+            base = kw['fcomment'] if kw['fcomment'] is not None else b''
+            if kw['fcomment'] is None:
+                kw['fcomment'] = b''
+                m = member(p, **kw)
+            want = params['align'] % 512
+            pad = (want - len(m)) % 512
+            kw['fcomment'] = base + b'x' * pad
+            m = member(p, **kw)
+            assert len(m) % 512 == want
+        out += m
     return out
 
 
